@@ -28,6 +28,8 @@ func checkC06(c *Ctx) {
 	ruleParseLoopProgress(c, "C06.j", "imapserver", "internal")
 	c.rule("C06.k", "no allocation is sized by a number the peer announced (a literal header alone must not make the server allocate)", 4)
 	ruleNoWireSizedAlloc(c, "C06.k")
+	c.rule("C06.l", "a constant index or offset into a decoded string or slice is dominated by a length test", 3)
+	ruleConstIndexGuarded(c, "C06.l", "imapserver", "imapserver/imapmemserver")
 	c.rule("C06.L", "layering lemma", 1)
 	c.rule("C06.i", "no lock-order cycle or same-mutex nesting on the serving goroutine (a self-deadlocked connection goroutine never ends)", 8)
 	ruleLockOrder(c, "C06.i", newLockAnalysis(c.P, serverRoots(c.P), layeringCut(c, "C06.L")))
